@@ -13,6 +13,7 @@ from fractions import Fraction as Fr
 from . import core, model
 from . import c15_common as C
 from .core import BITS
+from .core import ffloat as _ffloat
 
 EPS = {"float": Fr(1, 2 ** 23), "double": Fr(1, 2 ** 52), "long double": Fr(1, 2 ** 63)}
 DENORM = {"float": Fr(1, 2 ** 149), "double": Fr(1, 2 ** 1074), "long double": Fr(1, 2 ** 16445)}
@@ -221,8 +222,8 @@ class Explorer:
                                                            pr["tgt"].name, inst["rep"], v["x"])
             e = C.parse_num(v["e"])
             what = "%s: %s gives %s; the exact value is %.17g (don't-care band %.3g)" % (
-                cfg, call, float(C.parse_num(v["r"])) if C.parse_num(v["r"]) is not None else v["r"], float(e),
-                float(C.parse_num(v["band"])))
+                cfg, call, _ffloat(C.parse_num(v["r"])) if C.parse_num(v["r"]) is not None else v["r"], _ffloat(e),
+                _ffloat(C.parse_num(v["band"])))
             viol(key, what, {"kind": "round", "pair": pr["name"], "rep": inst["rep"], "x": v["x"], "fn": v["fn"],
                              "out": v["out"], "config": [cfg.cxx, cfg.std], "observed": v})
 
